@@ -18,13 +18,14 @@ from vlib.verdict import Case
 PROPERTY = 'C10'
 MANIFEST = {
  'level_text': 'Lean 4 simulation proof, kernel-checked. A reference IRC server Srv (users, channels, members with op/halfop/voice flags, topic, modes, ban lists, hostmasks; multi-prefix, userhost-in-names, extended-join, chghost, WHOX, batch, RPL_ISUPPORT; rfc1459 case rules) and a model of irclib.IrcState / ChannelState / Irc.feedMsg (nick, prefix, nick setters, RPL_ISUPPORT, the WHO / MODE / MODE +b queries Irc.doJoin sends, IRCv3 batches) are coupled by an invariant proved to hold after EVERY finite run from "just registered" (theorems view_refines_partial and, with batches, view_refines_batched_partial; induction with one simulation lemma per action: JOIN incl. the bot\'s own with topic+NAMES, PART, KICK, QUIT, NICK incl. case-only and the bot\'s own, MODE, TOPIC, PRIVMSG, NAMES, CHGHOST announced or silent, ISUPPORT, reconnect, the replies to the bot\'s queries served in order or sent unsolicited/late, BATCH open/close; multi-target JOIN/PART/KICK). The coupling: own nick and prefix; set of joined channels; per channel users, ops, topic exactly; halfops/voices exactly with multi-prefix and never wrong without it; modes a sub-map and bans a subset of the server\'s until the 324 / ban-list reply arrives, exact afterwards; the hostmask of every user whose current hostmask the server has shown to the bot. No assumption on negotiated capabilities. Corollaries: own PART / KICK / reconnect remove the channel; the bot sends exactly MODE, MODE +b, WHO on its own JOIN. Mode-argument tables, rfc1459 table, nick setters, sigil / mode-letter literals and isChannel defaults are re-extracted from /repo on every run and the proofs rest on table lemmas. The bot model is tied to the real irclib by a differential run comparing the full state dump (and what the bot sends) after every single message, and the property statement is evaluated on the real Irc against an independent Python reference server (itself compared with the Lean Srv message by message).',
- 'level_note': 'Trusted: Lean kernel; axioms propext/Classical.choice/Quot.sound only; harness/extractors/chanstate.py; harness/c10.py (generators, canonical dumps, the Python reference server used as oracle). Hypothesis of the theorems: valid configuration (CHANTYPES contains # and &, CHANNELLEN >= 50) and no mode argument that int() rewrites (known finding C10-mode-arg-int, counter-example proved in Lean). Also proved (queries_cover, view_exact_when_quiescent, hostmasks_exact_when_quiescent): every channel of the bot has had modes and bans sent or the bot\'s query is still queued, with chghost every visible user has been shown or a WHO is queued, so when the queue is empty (and multi-prefix) the bot\'s record equals the server\'s; the same is checked on every generated history for the independent Python server. Modelled and proved: IrcState.addMsg (hostmask bookkeeping, batch tag assertion, dispatch) and doJoin/doPart/doKick/doQuit/doNick/doMode/doTopic/do353/do352/do354/do324/do329/do332/do367/doChghost/do005/doBatch, ChannelState.addUser/replaceUser/removeUser/doMode, separateModes, isUserHostmask/splitHostmask, isChannel with CHANTYPES/CHANNELLEN from 005, Irc.feedMsg nick/prefix/nick-setter logic, Irc.doNick, Irc.doChghost, Irc.doJoin (queued queries, in takeMsg order), Irc.reset. Hard-coded in the code and therefore assumed of the server: rfc1459 casemapping, PREFIX (ohv)@%+, CHANMODES classes b,e,q,I / k / l / flags (proved counter-examples: casemapping_hardcoded, prefix_hardcoded, param_mode_mispaired; known finding C10-param-modes-not-from-isupport). Not modelled: other ISUPPORT tokens, the one-hour expiry of state.batches, int() on non-ASCII digits, plugins / callbacks, irc.server, the bot\'s own host change without chghost.',
+ 'level_note': 'Trusted: Lean kernel; axioms propext/Classical.choice/Quot.sound only; harness/extractors/chanstate.py; harness/c10.py (generators, canonical dumps, the Python reference server used as oracle). Hypothesis of the theorems: valid configuration (CHANTYPES contains # and &, CHANNELLEN >= 50) and no mode argument that int() rewrites (known finding C10-mode-arg-int, counter-example proved in Lean). Also proved (queries_cover, view_exact_when_quiescent, hostmasks_exact_when_quiescent): every channel of the bot has had modes and bans sent or the bot\'s query is still queued, with chghost every visible user has been shown or a WHO is queued, so when the queue is empty (and multi-prefix) the bot\'s record equals the server\'s; the same is checked on every generated history for the independent Python server. Modelled and proved: IrcState.addMsg (hostmask bookkeeping, batch tag assertion, dispatch) and doJoin/doPart/doKick/doQuit/doNick/doMode/doTopic/do353/do352/do354/do324/do329/do332/do367/doChghost/do005/doBatch, ChannelState.addUser/replaceUser/removeUser/doMode, separateModes, isUserHostmask/splitHostmask, isChannel with CHANTYPES/CHANNELLEN from 005, Irc.feedMsg nick/prefix/nick-setter logic, Irc.doNick, Irc.doChghost, Irc.doJoin (queued queries, in takeMsg order), Irc.reset, the login-following branch of Irc.doNick (supybot.followIdentificationThroughNickChanges with a user database: FBot / followNick; follow_switch_transparent: whatever the switch and the database, no NICK of the server is lost and the view is that of the bot without the switch; identifications compared model vs code as A=). Hard-coded in the code and therefore assumed of the server: rfc1459 casemapping, PREFIX (ohv)@%+, CHANMODES classes b,e,q,I / k / l / flags (proved counter-examples: casemapping_hardcoded, prefix_hardcoded, param_mode_mispaired; known finding C10-param-modes-not-from-isupport). Implementation + oracle only (the Lean Srv keeps # & / 50 and one JOIN per channel): stream ext - a server whose 005 announces other CHANTYPES / a larger CHANNELLEN and uses such names, and which announces a multi-target JOIN of the bot in one message; the bot model is compared with the code on such traffic in the raw stream rawseq. Not modelled: hostmask patterns of registered users, identification timeout, other ISUPPORT tokens, the one-hour expiry of state.batches, int() on non-ASCII digits, plugins / callbacks, irc.server, the bot\'s own host change without chghost.',
  'technique': 'Lean 4 proof (simulation with a coupling invariant, induction over runs) + table extraction + differential correspondence',
  'design_ref': 'DESIGN.md §6 C10',
 }
 THEOREMS = ['C10.view_refines_partial', 'C10.view_refines_batched_partial', 'C10.step_plain', 'C10.view_step', 'C10.wf_step', 'C10.coupled_step',
             'C10.view_channels', 'C10.view_channel', 'C10.view_channel_full', 'C10.view_channel_gone', 'C10.bot_queries_on_join',
             'C10.queries_cover', 'C10.view_exact_when_quiescent', 'C10.hostmasks_exact_when_quiescent', 'C10.complete_step', 'C10.run_complete',
+            'C10.follow_switch_transparent', 'C10.follow_never_loses_nick', 'C10.runF_eq_runB', 'C10.step_nf',
             'C10.own_part_removes', 'C10.own_kick_removes', 'C10.reconnect_clears',
             'C10.view_refines_fails_intarg', 'C10.separateModes_ignores_isupport', 'C10.param_mode_mispaired',
             'C10.recv_isupportEv', 'C10.casemapping_hardcoded', 'C10.prefix_hardcoded',
@@ -40,7 +41,11 @@ RULE = ('seeded histories of reference-server actions over 3-9 users and 2-6 cha
         'without parameters, case-only and own nick changes, CHGHOST announced or silent, PRIVMSG, ISUPPORT, batches, reconnect, the '
         'bot\'s queries served in order or replies sent unsolicited / late; near-miss: unknown/invalid subjects the server must ignore; '
         'nomp: without multi-prefix; findings: the two known-finding classes; hostile: raw messages of the modelled commands incl. 005 and '
-        'BATCH with wrong arity / odd arguments / stray batch tags fed to bot and bot model). '
+        'BATCH with wrong arity / odd arguments / stray batch tags fed to bot and bot model; rawseq: directed raw traffic - 005 with usual or unusual CHANTYPES/CHANNELLEN, '
+        'the bot\'s own JOIN of 2-3 new channels in one message, then per-channel NAMES/MODE/TOPIC/bans/JOIN/PART/KICK/NICK that make the channels differ; '
+        'ext: reference server with announced CHANTYPES/CHANNELLEN names and single-message multi-target JOIN of the bot, oracle only). '
+        'Names include non-ASCII pairs differing only in non-ASCII case (distinct under rfc1459). 40% of the configurations have '
+        'followIdentificationThroughNickChanges on with 0-3 users identified from hostmasks occurring in the history. '
         'A case is one history; it is non-trivial when at least one message reached the bot; distinct = distinct action list.')
 
 # ------------------------------------------------------------------------------------------
